@@ -12,7 +12,9 @@ import (
 	"time"
 
 	ipfslog "berty.tech/go-ipfs-log"
+	"berty.tech/go-ipfs-log/accesscontroller"
 	"berty.tech/go-ipfs-log/entry"
+	idp "berty.tech/go-ipfs-log/identityprovider"
 	"berty.tech/go-ipfs-log/iface"
 	"github.com/anishathalye/porcupine"
 	"github.com/ipfs/go-cid"
@@ -70,10 +72,31 @@ type scene struct {
 	initSet  model.Set
 }
 
+// inspectACL is an access controller that looks at the log's entries through the context it is given
+// (e.g. a quota or duplicate check); it allows everything.
+type inspectACL struct{ looked int64 }
+
+func (a *inspectACL) CanAppend(e accesscontroller.LogEntry, _ idp.Interface, c accesscontroller.CanAppendAdditionalContext) error {
+	if c != nil {
+		atomic.AddInt64(&a.looked, int64(len(c.GetLogEntries())))
+	}
+	return nil
+}
+
 func newScene(seed int64, idx int, nsrc int, rng *rand.Rand) *scene {
-	w := hx.NewWorld(seed, 4, fmt.Sprintf("c13-%d-%d", seed, idx), "hash", "cbor")
+	codec := "cbor"
+	if idx%3 == 2 {
+		codec = "link" // merges then run one pre-sign (seal) per candidate on concurrent goroutines
+	}
+	w := hx.NewWorld(seed, 4, fmt.Sprintf("c13-%d-%d", seed, idx), "hash", codec)
 	s := &scene{w: w, universe: model.Set{}, seen: map[int]map[string]bool{}, lastLen: map[int]int{}}
-	s.L = w.NewLog(0)
+	if idx%4 == 1 {
+		lo := w.LogOpts(w.LogID)
+		lo.AccessController = &inspectACL{}
+		s.L, _ = ipfslog.NewLog(w.Store.API(), w.Idents[0], lo)
+	} else {
+		s.L = w.NewLog(0)
+	}
 	// initial content of L
 	for k := rng.Intn(4); k > 0; k-- {
 		e, _ := s.L.Append(w.Ctx, []byte(fmt.Sprintf("init-%d", k)), nil)
